@@ -331,7 +331,12 @@ func checkTolPair(r *vk.Run, p *pair, tree *vnode, real cmp.Message, placement s
 			}
 			return g1 != g2
 		})
-		r.Violation(pre+"symmetric/msg-"+class, fmt.Sprintf("cmp.Equal(%s)(x,y)=%v but (y,x)=%v\nx=%s\ny=%s", tree, gXY, gYX, vk.JSON(x), vk.JSON(y)), replay)
+		skey := pre + "symmetric/msg-" + class
+		var dXY, dYX bool
+		if pk, _ := vk.Recover(func() { dXY, dYX = cmp.Equal()(x, y), cmp.Equal()(y, x) }); !pk && dXY != dYX {
+			skey = "C16/equal-vs-proto/asymmetric/" + class // the default comparer is asymmetric on this pair too
+		}
+		r.Violation(skey, fmt.Sprintf("cmp.Equal(%s)(x,y)=%v but (y,x)=%v\nx=%s\ny=%s", tree, gXY, gYX, vk.JSON(x), vk.JSON(y)), replay)
 	}
 	if nonReflexive {
 		r.Count("message/not-judged(non-reflexive content)", 1)
@@ -380,7 +385,23 @@ func checkTolPair(r *vk.Run, p *pair, tree *vnode, real cmp.Message, placement s
 			clause = "tolerance"
 		}
 	}
-	r.Violation(pre+clause+"/msg-"+class+"/"+verdictName(got),
+	key := pre + clause + "/msg-" + class + "/" + verdictName(got)
+	if clause == "other-kind" {
+		// when the default comparer is wrong on the reduced pair as well, the defect is in the shared comparison
+		// skeleton, not in this comparer: report it under the first clause's key
+		var dgXY, dgYX bool
+		if pk, _ := vk.Recover(func() { dgXY, dgYX = cmp.Equal()(x, y2), cmp.Equal()(y2, x) }); !pk {
+			if w, op := refEqual(x, y2, nil); op == "" {
+				switch {
+				case dgXY != w:
+					key = "C16/equal-vs-proto/" + class + "/" + verdictName(dgXY)
+				case dgYX != w:
+					key = "C16/equal-vs-proto/" + class + "/" + verdictName(dgYX)
+				}
+			}
+		}
+	}
+	r.Violation(key,
 		fmt.Sprintf("cmp.Equal(%s)(x,y)=%v (y,x)=%v, reference equivalence says %v (placement %s)\nreduced pair:\nx=%s\ny=%s\noriginal y=%s",
 			tree, gXY, gYX, want, placement, vk.JSON(x), vk.JSON(y2), vk.JSON(y)),
 		map[string]any{"case": replay, "reduced_y": vk.JSON(y2)})
